@@ -224,6 +224,100 @@ pub fn run_case<G: AffineRepr>(run: u64, case: &Case, st: &mut Stats) {
     let gs = refgens::ref_chain_cached::<G>(b'G', 0, padded);
     let hs = refgens::ref_chain_cached::<G>(b'H', 0, padded);
     let limbs = <F<G> as PrimeField>::BigInt::NUM_LIMBS;
+    let expected_roles = 3 + 2 * n1 + if n2 > 0 { 3 + 2 * n2 } else { 0 } + 5;
+    if expected_roles > 90 {
+        // LARGE circuit: perturbing every draw would cost one prove per draw.
+        // (i) there must be at least as many RNG draws as roles;
+        // (ii) a sample of draws is perturbed: each must act as delta x (B~ | G_i | H_i) or be unused;
+        // (iii) opening with the draws taken in the order observed on small
+        //       circuits is attempted; a match is recorded, a mismatch carries no demand.
+        st.probe("large-circuit-sampled-attribution");
+        if draws.len() < expected_roles {
+            viol(st, "every-role-has-its-own-fresh-draw", format!("only {} scalar draws come out of the transcript RNG for {} blinding roles (n1={}, n2={})", draws.len(), expected_roles, n1, n2));
+            return;
+        }
+        let mut table: std::collections::BTreeMap<Vec<u8>, String> = std::collections::BTreeMap::new();
+        table.insert(enc_point(&bbl), "B~".into());
+        for i in 0..n {
+            table.insert(enc_point(&gs[i]), format!("G{}", i));
+            table.insert(enc_point(&hs[i]), format!("H{}", i));
+        }
+        let base_fields = field_list(&pf);
+        let mut srng = rng_from_u64(case.base.ext_seed, "c09-sample");
+        let mut picks: Vec<usize> = vec![0, 1, 2, draws.len() - 1, draws.len() - 3];
+        for _ in 0..5 {
+            picks.push(below(&mut srng, draws.len()));
+        }
+        for k in picks {
+            let d = &draws[k];
+            let fill_idx = d.end - limbs;
+            let mut f2 = fills.clone();
+            f2[fill_idx][0] ^= 1;
+            let d2 = {
+                let mut rr = ReplayRng { fills: &f2, idx: d.start, exhausted: false };
+                let v = F::<G>::rand(&mut rr);
+                if rr.exhausted || rr.idx != d.end {
+                    continue;
+                }
+                v
+            };
+            let delta = d2 - d.value;
+            merlin::sim::arm_rng_fault(fill_idx as u64, vec![1]);
+            let res = prove_fields::<G>(case, case.base.ext_seed, false);
+            let _ = merlin::sim::disarm_rng_fault();
+            st.steps += 1;
+            st.fault("F11-single-draw-perturbed");
+            let Ok((pfk, _, _)) = res else {
+                viol(st, "perturbed-prove", format!("prove failed with draw {} perturbed", k));
+                return;
+            };
+            let fk = field_list(&pfk);
+            let Some(first) = base_fields.iter().zip(fk.iter()).position(|(a, b)| a != b) else {
+                st.probe("unused-draw(allowed)");
+                continue;
+            };
+            let ok = first < 11 && {
+                let diff = pfk.pts[first].into_group() - pf.pts[first].into_group();
+                match ark_ff::Field::inverse(&delta) {
+                    Some(di) => table.contains_key(&enc_point(&(diff * di).into_affine())),
+                    None => false,
+                }
+            };
+            if !ok {
+                viol(st, "draw-acts-as-blinding", format!("large circuit (n1={}, n2={}): perturbing RNG draw {} changes component #{} by something that is not (delta) x (blinding base or a generator)", n1, n2, k, first));
+                return;
+            }
+        }
+        // (iii) opening in the usual order
+        let dv = |i: usize| draws[i].value;
+        let mk = |a1: usize, a2: usize| -> Option<Nonces<F<G>>> {
+            if a1 != n1 || (a2 != usize::MAX && a2 != n2) {
+                return None;
+            }
+            let z = F::<G>::zero();
+            let mut c = 0usize;
+            let mut next = || {
+                let v = dv(c);
+                c += 1;
+                v
+            };
+            let (bi1, bo1, s1) = (next(), next(), next());
+            let sl1: Vec<_> = (0..n1).map(|_| next()).collect();
+            let sr1: Vec<_> = (0..n1).map(|_| next()).collect();
+            let (bi2, bo2, s2) = if n2 > 0 { (next(), next(), next()) } else { (z, z, z) };
+            let sl2: Vec<_> = (0..n2).map(|_| next()).collect();
+            let sr2: Vec<_> = (0..n2).map(|_| next()).collect();
+            let tau = [next(), next(), next(), next(), next()];
+            Some(Nonces { beta_i1: bi1, beta_o1: bo1, sigma1: s1, s_l1: sl1, s_r1: sr1, beta_i2: bi2, beta_o2: bo2, sigma2: s2, s_l2: sl2, s_r2: sr2, tau })
+        };
+        match ref_prove::<G>(&case.base.st, &mk) {
+            Some(rp) if field_list(&rp.fields) == base_fields => st.probe("large-circuit-opened-against-refprover"),
+            _ => st.probe("large-circuit-draw-order-unknown(no-demand)"),
+        }
+        st.distinct(&format!("large|{}|{}|{}", case.base.st.curve.name(), n1, n2));
+        st.log_digest(run, &bytes);
+        return;
+    }
     let mut roles: BTreeMap<Role, usize> = BTreeMap::new();
     let base_fields = field_list(&pf);
     for (k, d) in draws.iter().enumerate() {
@@ -398,7 +492,18 @@ pub fn case_for(seed: u64, tier: Tier, run: u64) -> Case {
         kn.max_gates = tier.pick(4, 16);
         kn.max_ops = 10;
     }
-    let base = if run < 3 * gen::scripted(Curve::Secq).len() as u64 { c01::case_for(seed, tier, run) } else { gen_session_case(&mut rng, curve, &kn) };
+    let base = if run < 3 * gen::scripted(Curve::Secq).len() as u64 {
+        c01::case_for(seed, tier, run)
+    } else if run % 500 == 33 {
+        // a LARGE circuit with >= 512 gates (mostly in one phase)
+        let gates = 560 + below(&mut rng, 100);
+        let st = with_curve!(curve, G, gen::gen_large_statement::<<G as AffineRepr>::ScalarField>(&mut rng, curve, gates));
+        let (_, _, _, padded) = shape_of(&st);
+        let b = SessionCase { st, cap_p: vec![padded], cap_v: vec![padded], ext_seed: rand_core::RngCore::next_u64(&mut rng) };
+        return Case { base: b, mode: RngMode::Normal, attribute: true };
+    } else {
+        gen_session_case(&mut rng, curve, &kn)
+    };
     let mode = match below(&mut rng, 8) {
         0 => RngMode::StuckZero,
         1 => RngMode::StuckPattern,
